@@ -17,7 +17,7 @@
 (* is exact, too).                                                             *)
 EXTENDS Simplicial, Persistence
 
-BIG == 1000000      \* +infinity: insertion radius of the first point, "no maxi", essential classes
+BIG == 1073741824   \* 2^30 = +infinity: insertion radius of the first point, "no maxi", essential classes (never used in arithmetic)
 ST == INSTANCE SimplexTree WITH V <- {}, Vals <- {}, INF <- BIG, MaxDim <- 0, K <- <<>>, act <- <<>>
 PC == INSTANCE MC_PersistentCohomology WITH V <- {}, Vals <- {}, INF <- BIG, MaxDim <- 0, K <- <<>>, act <- <<>>,
                                             Primes <- {2}, MinLensPlus1 <- {1}
